@@ -116,3 +116,21 @@ package serveruser
 //@
 //@ func SourceFromAddr(addr net.Addr) (s Source)
 //@   trusted address parsing helper (array conversions outside the subset); the result is left unconstrained
+//@
+//@ // Reload (C05, C07): every SetUsers call publishes a generation built from exactly the map
+//@ // it was given - also an empty one, which revokes every credential - and detaches the cache
+//@ // of the generation it replaces.
+//@ func (r *Registry) SetUsers(users map[string]*appctlpb.User)
+//@   property C05 C07
+//@   mode int
+//@   noframe
+//@   requires r != nil
+//@   ensures r.users.v != nil && r.users.v != old(r.users.v) && len(asptr(r.users.v, *state).users) <= len(users)
+//@   ensures wfUsers(asptr(r.users.v, *state))
+//@   ensures old(r.users.v) != nil && asptr(old(r.users.v), *state).cache != nil ==> asptr(old(r.users.v), *state).cache.table.v == nil
+//@
+//@ // Compiling a user map is outside the subset (map iteration order, sort.Slice, hashing):
+//@ // assumed to return a fresh, well-formed generation with at most one entry per map entry.
+//@ func buildState(users map[string]*appctlpb.User, stats *sourceUserCacheStats) (s *state)
+//@   trusted sorts the users by name with sort.Slice, skips unusable entries, derives credentials with SHA-256
+//@   ensures s != nil && fresh(s) && wfUsers(s) && len(s.users) <= len(users)
